@@ -280,11 +280,15 @@ MANIFEST_TEXT['C14'] = {
              'shapes are sampled.'),
     'design_ref': 'DESIGN.md section 4 (C14)',
     'note': ('Trusted: reference encoders (validated byte-for-byte against '
-             'the repo samples), prefix crash model. One recorded known '
-             'finding (temperature, inherent to the headerless format) is '
+             'the repo samples), prefix crash model. Reader families: the '
+             'memory-mapped classes, pncopen, and (7 formats) the sequential '
+             'record readers; a read that raised is retried once on the same '
+             'object and what the retry returns is judged. Five recorded known '
+             'findings (four inherent format ambiguities on boundary cuts, '
+             'record readers not verifying the final trailing marker) are '
              'continued past inside runs so the remaining offsets are still '
-             'judged. bpch not covered: its readers raise on every file in '
-             'this environment.'),
+             'judged; the evidence lists judged / not-judged (format, family) '
+             'combinations.'),
     'technique': 'deterministic simulation: enumeration of crash points (byte prefixes) with the real reader in CPU-limited forked children against producer ground truth',
 }
 
@@ -372,10 +376,16 @@ MANIFEST_TEXT['C13'] = {
              'schedule is what the simulator contributes: the answer must not '
              'depend on what was read before.'),
     'design_ref': 'DESIGN.md section 5 (C13)',
-    'note': ('Trusted: reference encoders as file source. Files the record '
-             'reader rejects are outside the claim (counted). Two recorded '
-             'known findings (record readers have no calendar across a year '
-             'end; wind record reader on grids of <= 3 cells).'),
+    'note': ('Trusted: reference encoders as file source. A file counts as '
+             'accepted when both families open and read it (counted '
+             'otherwise); a reader that opened a file must finish its time '
+             'listing even if reading the data raised. Every disagreement is '
+             'attributed against the producer\'s truth (which fresh reader is '
+             'off), and the recorded known findings - all in the deprecated '
+             'timetuple arithmetic of the record readers: no calendar across a '
+             'year end, non-hourly steps, gridded files ending past midnight, '
+             'wind on grids of <= 3 cells - match only when the record reader '
+             'alone is off.'),
     'technique': 'deterministic simulation: seeded access schedule over the record reader\'s hidden cursor, compared step by step with a fresh reader of the other family; CPU-limited termination probe',
 }
 
